@@ -1,6 +1,7 @@
 """C04, C12: DBC parser (pkg/dbc/parser.go, def.go, text/scanner subset). DESIGN.md 5.4, 5.12."""
 import vlib
 from checks import parser_tie
+from checks import translate_tie
 
 _NOTE = ("Trusted: Coq 8.16.1 kernel; extraction (ExtrOcamlBasic) + OCaml 4.13.1; the hand-written models "
          "Dbc/Scanner.v (text/scanner subset), Dbc/Parser.v (parser.go, def.go), Dbc/DecFloat.v (strconv.ParseFloat as the "
@@ -62,6 +63,15 @@ PROPERTIES = {
         "design_ref": "5.12",
     },
 }
+
+translate_tie.describe(PROPERTIES, "C04", "(here: MessageID.IsExtended/ToCAN/Validate of pkg/dbc/messageid.go = msgid_is_extended/msgid_to_can/"
+                       "msgid_valid; Identifier.Validate = Dbc/Validate.v validate = the byte-wise ident_valid; identifiers.IsAlphaChar/IsNumChar = the "
+                       "model's character classes; the Validate methods of "
+                       "SignalValueType, EnvironmentVariableType, AccessType, AttributeValueType, ObjectType = the acceptance tests of "
+                       "the parser model)", translate_tie.TIE_NOTE_INT, translate_tie.TIE_NOTE_LOOP)
+translate_tie.describe(PROPERTIES, "C12", "(here: Identifier.Validate = validate = the byte-wise ident_valid; identifiers.IsAlphaChar/IsNumChar and the Validate methods of SignalValueType, "
+                       "EnvironmentVariableType, AccessType, AttributeValueType, ObjectType = the character classes and acceptance "
+                       "tests of the parser model)", translate_tie.TIE_NOTE_INT, translate_tie.TIE_NOTE_LOOP)
 
 RULES = {
     "C04": "seeded grammar generator in the Go harness: files of 0..40 definitions over the 16 dispatching kinds + unknown lines "
@@ -199,6 +209,7 @@ def run(res, replay=None):
     vlib.proof_stage(res)
     # stage parser_tie: the parseFrom methods regenerated from the source = the hand model, for all parser states
     parser_tie.run_parser_tie(res)
+    translate_tie.run_tie(res, ["dbcid", "dbcvalidate"] if pid == "C04" else ["dbcvalidate"])
     counts = {}
     vlib.standard_run(
         res, "parser", harness_args(pid, res.tier, res.seed), "parser", RULES[pid], ASSUME,
